@@ -375,8 +375,12 @@ class TdmsSegment(object):
             In the base case we read each chunk individually but subclasses can override this
         """
         reader = self._get_data_reader()
-        for chunk in reader.read_data_chunks(file, data_objects, num_chunks):
+        initial_position = file.tell()
+        chunk_size = self._get_chunk_size()
+        for i, chunk in enumerate(reader.read_data_chunks(file, data_objects, num_chunks)):
             yield chunk
+            # Other reads may have moved the file position while the generator was suspended
+            file.seek(initial_position + (i + 1) * chunk_size)
 
     def _read_channel_data_chunks(self, file, data_objects, channel_path, chunk_offset, stop_chunk, chunk_size):
         """ Read multiple data chunks for a single channel at once
